@@ -310,6 +310,8 @@ def build_value(col, v):
     if c == "Date":
         if "days" in v:
             return util.Date(v["days"])
+        if "dtv" in v:      # a full datetime description (naive or aware, any time of day) given to a date column
+            return build_datetime(v["dtv"])
         if "dt" in v:
             day = datetime.date.fromordinal(v["dt"])
             return datetime.datetime(day.year, day.month, day.day, 13, 14, 15)
